@@ -155,7 +155,7 @@ CHECKS = {
         "1e-12 monitored); raw vsignatures cases exact. Full vibrational space only: the truncated generators (vibgen_approx) raise "
         "AttributeError (numpy.int) on the pinned NumPy and are excluded by the property. Static tie: numpy.ndindex and the "
         "Franck-Condon tables remain oracles; the translator (translate_c03.py / translate_c10.py) is trusted as for C03.",
-   design="7/C10", technique="Coq proof (induction over mode lists, ring over an abstract *-ring with the FC table as a Section variable) + in-Coq correspondence (exact state lists, 1e-12 matrix elements) + static tie: the sub-mode collection of ElectronicState.__init__, vsignatures (full space), fc_factor including its table key, the vibrational part of the energy, allstates and the HH/DD/FC/Ntot/Nb statements of _build are regenerated from the source and proved equal to vibmodes_of, fc_factor, venergy, vstates, vH, vD, vFC, vNb (Proofs/C10gen.v)"),
+   design="7/C10", technique="Coq proof (induction over mode lists, ring over an abstract *-ring with the FC table as a Section variable) + in-Coq correspondence (exact state lists, 1e-12 matrix elements) + static tie: the sub-mode collection of ElectronicState.__init__, vsignatures (full space), fc_factor including its table key, the vibrational part of the energy, allstates and the HH/DD/FC/Ntot/Nb statements of _build are regenerated from the source and proved equal to vibmodes_of, fc_factor, venergy, vstates, vH, vD, vFC, vNb (Proofs/C10gen.v); the look-up table class ho.py:fcstorage is translated method by method and proved equal to the store model of Proofs/C10store.v, for which every request of every history is answered with the matrix of its own shift (c10_fc_table_is_function_of_shift)"),
  "C15": dict(
    text="Proved in Coq (closed) in an EFFECT model of tensor construction (9 kinds incl. the raising ones), rate matrix, propagate of 13 "
         "density-matrix propagator kinds (with Nref and order arguments), state-vector / population / hierarchy propagate and "
